@@ -431,15 +431,24 @@ def assemble(unit, canary=False, mutant=None, check_fp=True):
             reps.append((st, st, " " + gt + " ", dict(org_base, kind="ghost", line=g["line"], tags=[t for _, l in g["lines"] for t in parse_tags(l)])))
         all_edits = list(it.edits)
         if mutant and mutant.get("item") == it.id:
-            all_edits.append({"from": mutant["find"], "to": mutant["replace"], "why": "MUTANT", "line": 0, "mutant": True})
+            all_edits.append({"from": mutant["find"], "to": mutant["replace"], "why": "MUTANT", "line": 0, "mutant": True, "occurrence": mutant.get("occurrence")})
         for e in all_edits:
             frm = e["from"].encode().decode("unicode_escape").encode() if "\\" in e["from"] else e["from"].encode()
             cnt = body.count(frm)
-            if cnt != 1:
-                if e.get("mutant"):
+            occ = e.get("occurrence")
+            if occ is not None and e.get("mutant"):
+                if cnt <= occ:
                     raise Undecided(f"mutant anchor `{e['from']}` occurs {cnt} times in {it.path}")
-                raise Undecided(f"lost-anchor: {it.path}: edit anchor `{e['from']}` occurs {cnt} times")
-            st = b0 + body.index(frm)
+                idx = -1
+                for _ in range(occ + 1):
+                    idx = body.index(frm, idx + 1)
+                st = b0 + idx
+            else:
+                if cnt != 1:
+                    if e.get("mutant"):
+                        raise Undecided(f"mutant anchor `{e['from']}` occurs {cnt} times in {it.path}")
+                    raise Undecided(f"lost-anchor: {it.path}: edit anchor `{e['from']}` occurs {cnt} times")
+                st = b0 + body.index(frm)
             org = dict(org_base, kind="edit", line=e["line"], tags=[])
             reps.append((st, st + len(frm), e["to"], org))
             if not e.get("mutant"):
@@ -948,6 +957,64 @@ def cmd_unit(args):
     return 0 if not an["failures"] and not an["undecided"] else 1
 
 
+def load_mutants(unit):
+    p = os.path.join(SPEC, "mutants", unit + ".json")
+    if not os.path.exists(p):
+        return []
+    with open(p) as f:
+        return json.load(f)
+
+
+def resolve_item_id(A, short):
+    for i in A.items:
+        if i["id"] == short or i["id"].endswith(short) or i["path"].endswith(short):
+            return i["id"]
+    return None
+
+
+def run_mutants(unit, seed=0):
+    """-> list of dict(desc, outcome in killed|survived|undecided, detail)"""
+    muts = load_mutants(unit)
+    if not muts:
+        return []
+    A0 = assemble(unit)
+    out = []
+
+    def one(n, m):
+        iid = resolve_item_id(A0, m["item"])
+        if iid is None:
+            return {"desc": m.get("desc", ""), "outcome": "undecided", "detail": f"item {m['item']} not in unit"}
+        try:
+            r = verify_unit(unit, seed=seed, do_canary=False, mutant={"item": iid, "find": m["find"], "replace": m["replace"], "n": n, "occurrence": m.get("occurrence")})
+        except Undecided as e:
+            return {"desc": m.get("desc", ""), "outcome": "undecided", "detail": str(e)}
+        an = r["an"]
+        fails = [f for f in an["failures"] if iid in f["items"]]
+        if fails:
+            tags = sorted({f"{p}:{n2}" for f in fails for p, n2 in f["tags"]}) or ["safety"]
+            return {"desc": m.get("desc", ""), "outcome": "killed", "detail": ", ".join(tags), "item": m["item"], "find": m["find"], "replace": m["replace"]}
+        if an["undecided"]:
+            return {"desc": m.get("desc", ""), "outcome": "undecided", "detail": "; ".join(an["undecided"])[:300]}
+        return {"desc": m.get("desc", ""), "outcome": "survived", "detail": "", "item": m["item"], "find": m["find"], "replace": m["replace"]}
+
+    with ThreadPoolExecutor(max_workers=int(os.environ.get("VERIF_JOBS", "8"))) as ex:
+        futs = [ex.submit(one, n, m) for n, m in enumerate(muts)]
+        for fu in futs:
+            out.append(fu.result())
+    return out
+
+
+def cmd_mutants(args):
+    units = args or list_units()
+    bad = 0
+    for u in units:
+        for r in run_mutants(u):
+            print(f"{u}: {r['outcome'].upper():9} {r['desc']}  [{r['detail']}]")
+            if r["outcome"] != "killed":
+                bad += 1
+    return 1 if bad else 0
+
+
 def cmd_pin(args):
     fps = {}
     for u in list_units():
@@ -981,6 +1048,8 @@ def main():
         return cmd_unit(args)
     if cmd == "pin":
         return cmd_pin(args)
+    if cmd == "mutants":
+        return cmd_mutants(args)
     print(__doc__)
     return 2
 
